@@ -12,6 +12,8 @@ What is a parameter (library code, not maddy's):
   arrives as `Txt` (junk / DMARC record with its parse result);
 * the resolver: `Str → Lookup` (answer classes: TXT list, not found, temporary DNS error, any other error);
 * `math/rand.Int31n(100)`: the oracle argument `rnd`.
+A DKIM result carries its signing identity (`Identifier`, the i= tag / header.i) next to d=; the code
+reads d= only (`C07_verdict_ignores_dkim_identity`).
 Not modelled: the trace field `EvalResult.DKIMResult`/`SPFResult` (only used for logging), a
 panicking resolver, resolvers that return both TXT strings and an error.
 The asynchronous hand-off (`Verifier.FetchRecord` starts the lookup in a goroutine under the context
@@ -55,7 +57,7 @@ deriving DecidableEq, Repr
 
 /-- One element of the `[]authres.Result` slice handed to `Apply`. -/
 inductive AuthRes
-  | dkim (v : Val) (d : Str)                -- *authres.DKIMResult{Value, Domain}
+  | dkim (v : Val) (d : Str) (ident : Str)  -- *authres.DKIMResult{Value, Domain, Identifier}: d=, i= ("" = absent)
   | spf (v : Val) (mailFrom helo : Str)     -- *authres.SPFResult{Value, From, Helo}
   | other                                   -- any other result type
 deriving DecidableEq, Repr
@@ -176,7 +178,8 @@ deriving DecidableEq, Repr
 def spfIdentity (fromI helo : Str) : Str := if fromI.isEmpty then helo else fromI
 
 def step (P : Prims) (fromD : Str) (rec : Record) (a : Acc) : AuthRes → Acc
-  | .dkim v d =>
+  | .dkim v d _ =>
+    -- `isAligned(fromDomain, dkimRes.Domain, …)`: the signing identity `dkimRes.Identifier` is not read
     let al := isAligned P fromD d rec.adkim
     { a with dkimPresent := true,
              dkimAligned := a.dkimAligned || (al && v == .pass),
